@@ -58,16 +58,18 @@ def cases(tier, seed):
     qT = [1, 2, 3, 5, 8, 12]
     tT = [1, 2, 3, 4, 5, 6, 7, 8, 9, 10, 11, 12, 16, 20, 27, 33, 40]
     for T in (qT if tier == "quick" else tT):
-        # one worker handles all start steps of four k values: eager jax primitives compile once per latent size
-        out.append(dict(name=f"T{T}-k1-4-lrk", kind="pipe", T=T, ks=[1, 2, 3, 4], pipe="lrk"))
-        if tier != "quick":
-            out.append(dict(name=f"T{T}-k5-8-lrk", kind="pipe", T=T, ks=[5, 6, 7, 8], pipe="lrk"))
+        # one worker handles all start steps of a few k values: eager jax primitives compile once per latent size
+        groups = [[1, 2, 3, 4], [5, 6, 7, 8]] if T < 12 else [[1, 2], [3, 4], [5, 6], [7, 8]]
+        for ks in groups:
+            if tier == "quick" and ks[0] > 4:
+                continue
+            out.append(dict(name=f"T{T}-k{ks[0]}-{ks[-1]}-lrk", kind="pipe", T=T, ks=ks, pipe="lrk"))
     # module pipelines with DtypeConversion (identities over the reals): fewer (T, k), every start step
     for i, p in enumerate(PIPES[1:]):
         if p in ("W", "none"):
             out.append(dict(name=f"T5-{p}", kind="pipe", T=5, ks=[0], pipe=p))
             continue
-        out.append(dict(name=f"T8-k2-3-{p}", kind="pipe", T=8, ks=[2, 3], pipe=p))
+        out.append(dict(name=f"T6-k2-3-{p}", kind="pipe", T=6, ks=[2, 3], pipe=p))
         if tier != "quick":
             out.append(dict(name=f"T12-k4-5-{p}", kind="pipe", T=12, ks=[4, 5], pipe=p))
     out.append(dict(name="fp-widening-roundtrip", kind="fp"))
